@@ -66,8 +66,18 @@ Wrappers == <<
   [n |-> "via-update-in-vec", d |-> "(def ff (fn [p]\n  (do p\n    _F)))\n", b |-> "(update-in [[1] 2]\n  [0 0] ff)", a |-> "\n", where |-> "def"],
   [n |-> "via-tail", d |-> "(def ff (fn [p]\n  (if p\n    (ff nil)\n    _F)))\n", b |-> "(do 1\n  (ff 1))", a |-> "\n", where |-> "def"],
   [n |-> "via-two-fns", d |-> "(def ff (fn [p]\n  (do p\n    _F)))\n", b |-> "(def gg (fn []\n  (ff 1)))\n(gg)", a |-> "\n", where |-> "def"],
-  [n |-> "macro-arg", d |-> "(defmacro twice (fn [e]\n  `(do ~e ~e)))\n", b |-> "(twice\n  ", a |-> ")\n", where |-> "call"] >>
+  [n |-> "macro-arg", d |-> "(defmacro twice (fn [e]\n  `(do ~e ~e)))\n", b |-> "(twice\n  ", a |-> ")\n", where |-> "call"],
+  \* macros whose ONLY parameter is a rest parameter and whose expansion IS (or holds) that rest list
+  [n |-> "macro-rest", d |-> "(defmacro callit (fn [& call]\n  call))\n", b |-> "(callit do 1\n  ", a |-> ")\n", where |-> "call"],
+  [n |-> "macro-rest-in-do", d |-> "(defmacro checked (fn [& call]\n  (list 'do call)))\n", b |-> "(checked list 1\n  ", a |-> "\n  3)\n", where |-> "call"],
+  \* ... the faulty call itself is BUILT from the operands: (callit nth [1] 5) expands to the call (nth [1] 5)
+  [n |-> "macro-rest-spliced", d |-> "(defmacro callit (fn [& call]\n  call))\n", b |-> "(callit\n  ", a |-> "\n", where |-> "call"],
+  [n |-> "macro-rest-spliced-in-let", d |-> "(defmacro callit (fn [& call]\n  call))\n", b |-> "(let [q 1]\n  (callit ", a |-> ")\n", where |-> "call"],
+  [n |-> "macro-rest-in-fn", d |-> "(defmacro callit (fn [& call]\n  call))\n(def ff (fn [p]\n  (callit do p\n    _F)))\n", b |-> "(ff 1)", a |-> "\n", where |-> "def"] >>
 
+Spliced == {"macro-rest-spliced", "macro-rest-spliced-in-let"}
+\* the fault's own elements become the operands of the wrapper's macro call (its closing parenthesis closes that call)
+Splice(F) == IF SubSeq(F, 1, 1) = "(" THEN SubSeq(F, 2, Len(F)) ELSE F \o ")"
 RECURSIVE NL(_, _)
 NL(s, i) == IF i > Len(s) THEN 0 ELSE (IF Ch(s, i) = "\n" THEN 1 ELSE 0) + NL(s, i + 1)
 Lines(s) == NL(s, 1)
@@ -90,7 +100,7 @@ Init == /\ ph = 0 /\ npre \in 0..MaxPre /\ pre \in 0..(Pow(NBk, npre) - 1)
 
 Next == /\ ph = 0 /\ ph' = 1 /\ UNCHANGED <<npre, pre, gap, w, f, post>>
         /\ LET W == Wrappers[w]
-               F == Faults[f].t
+               F == IF W.n \in Spliced THEN Splice(Faults[f].t) ELSE Faults[f].t
                preText == Prelude \o Join(BlockSeq(npre, pre), "")
                defText == FillHole(W.d, F)
                gapText == IF gap = 0 THEN "" ELSE Blocks[gap]
